@@ -72,6 +72,41 @@ def run(optimize, bad_atoms=None):
     return impl, impl.permute_results(res, optimize)
 
 
+def cached(name, main, repo_root, ttl=900):
+    """One property check replays the same native scenario once per failed obligation; the scenario
+    depends only on the sources, so its outcome is reused for `ttl` seconds, keyed by a hash of
+    every python file of emu_mps/emu_base under repo_root and of the replay scripts themselves."""
+    import hashlib, io, json, time, contextlib
+    h = hashlib.sha256()
+    for base in (os.path.join(repo_root, "emu_mps"), os.path.join(repo_root, "emu_base"), HERE):
+        for dp, _, files in sorted(os.walk(base)):
+            for fn in sorted(files):
+                if fn.endswith(".py"):
+                    with open(os.path.join(dp, fn), "rb") as f:
+                        h.update(fn.encode() + f.read())
+    h.update(os.environ.get("VERIF_SEED", "0").encode())
+    d = os.path.join(tempfile.gettempdir(), "verif_replay_cache")
+    os.makedirs(d, exist_ok=True)
+    path = os.path.join(d, f"{name}_{h.hexdigest()[:24]}.json")
+    try:
+        with open(path) as f:
+            rec = json.load(f)
+        if time.time() - rec["time"] < ttl:
+            print(rec["stdout"], end="")
+            print(f"(native result of {int(time.time() - rec['time'])} s ago reused: same sources, same scenario)")
+            return rec["exit"]
+    except Exception:
+        pass
+    buf = io.StringIO()
+    with contextlib.redirect_stdout(buf):
+        rc = main()
+    print(buf.getvalue(), end="")
+    with open(path + ".tmp", "w") as f:
+        json.dump({"time": time.time(), "stdout": buf.getvalue(), "exit": rc}, f)
+    os.replace(path + ".tmp", path)
+    return rc
+
+
 def in_tmp_dir():
     d = tempfile.mkdtemp(prefix="perm_native_")
     os.chdir(d)
